@@ -18,6 +18,7 @@ type ModSet struct {
 	Ghost   map[string]bool
 	Streams []string // reader ids whose position may advance
 	Outputs []string // writer ids that may receive more bytes
+	Families map[string]bool // whole element-heap families ("E_string") that may be written anywhere
 	All     bool
 }
 
